@@ -36,7 +36,11 @@ def run(tier, seed, replay=None):
                             d["class"], ",".join(fields), last.get("u"), last.get("obs")),
                         {"trace_line": d["line"], "segment": d["segment"]})
     # hook-event level: the same real-node runs, plus the meshes built by the repository's own tests, against NodeTrace.tla
-    nt = nodetrace.validate(wd, [out["hooks"], nodetrace.repo_test_traces(wd)], timeout=2400)
+    # restarts with a new epoch: the directed mesh scenarios of C01 (a transit node restarted ten times within two seconds,
+    # a link lost and healed inside a teardown), their hook events only
+    mhooks = wd + "/mesh_hooks.ndjson"
+    vlib.harness_json(vlib.build_harness(), ["mesh", "-scenarios", "0", "-seed", str(seed), "-hooktrace", mhooks, "-trace", wd + "/mesh_trace.ndjson"], wd, timeout=1500, name="meshdirected")
+    nt = nodetrace.validate(wd, [out["hooks"], nodetrace.repo_test_traces(wd), mhooks], timeout=2400)
     for d in nt["diffs"]:
         if d["event"] in ("ru_seen", "ru_apply", "ru_dupnotice", "flood", "mk_update", "ru_self", "node_new"):
             v.violation("C06:%s:%s" % (d["event"], "+".join(d["what"])),
